@@ -139,6 +139,13 @@ theorem stepP_thub (f : Nat) (st : St α) (s : Src α) (n : Nat) :
   simp only [stepP, thubP, ALV.Gen.C03.progs, ALV.Gen.C03.thub, hubInitP_gen]
   cases s <;> simp only [step] <;> (try rfl) <;> (split <;> rfl)
 
+theorem stepP_tee (f : Nat) (st : St α) (i n : Nat) :
+    stepP ALV.Gen.C03.progs f st (.tee i n) = step f st (.tee i n) := by
+  simp only [stepP, teeP, ALV.Gen.C03.progs, ALV.Gen.C03.tee, step]
+  cases mkSrc st (.obj i) with
+  | error e => rfl
+  | ok r => rfl
+
 /-- the step function of the history model IS the interpretation of the regenerated programs -/
 theorem stepP_gen (f : Nat) (st : St α) (op : Op α) : stepP ALV.Gen.C03.progs f st op = step f st op := by
   cases op with
@@ -154,6 +161,6 @@ theorem stepP_gen (f : Nat) (st : St α) (op : Op α) : stepP ALV.Gen.C03.progs 
   | next i => rfl
   | drain i => rfl
   | thub s n => exact stepP_thub f st s n
-  | tee i n => rfl
+  | tee i n => exact stepP_tee f st i n
 
 end ALV.C03.Src
